@@ -9,7 +9,7 @@ OWNERS = (P1, P2, PR)
 NAMES = ("a", "b", "c", "d", "e", "f")
 # action names that are prefixes / substrings of each other, empty, blank, or look like other tokens
 TRICKY_NAMES = ("a", "aa", "ab", "", " ", "b", "None", "a,b", "Down", "down", "0")
-REWARD_POOL = (0, 0, 0, 1, 1, 2, 3, 5, 0.5, 7.25, 1000, 1e6, 1e-3)
+REWARD_POOL = (0, 0, 0, 1, 1, 2, 3, 5, 0.5, 7.25, 1000, 1e6, 1e-3, 2.5e7)
 GENERIC_REWARDS = (0, 1, 2.5, 3.25, 5 / 7, 11 / 7, 13 / 7, 1.4142135623730951, 0.3, 4.75, 6.125, 17 / 3)
 
 
@@ -34,7 +34,7 @@ def _float_probs(draw, k):
 @st.composite
 def stopping_games(draw, min_inner=1, max_inner=8, dyadic=None, rewards=REWARD_POOL,
                    max_actions=4, dead_bias=True, max_finals=3, max_sinks=3,
-                   acyclic=False, owners=None, dup_names=False):
+                   acyclic=False, owners=None, dup_names=False, zero_edges=False):
     """A game that is stopping BY CONSTRUCTION.
 
     Abstract inner states 0..ni-1 carry a rank (their abstract index); every
@@ -96,6 +96,9 @@ def stopping_games(draw, min_inner=1, max_inner=8, dyadic=None, rewards=REWARD_P
                 succ = list(draw(st.permutations(succ)))
             probs = _dyadic_probs(draw, k, denom) if dyadic else _float_probs(draw, k)
             tr = [(p, ids[t]) for p, t in zip(probs, succ)]
+            if zero_edges and len(tr) < 5 and draw(st.integers(0, 5)) == 0:
+                # a transition listed with probability exactly 0 (to any state, dead ones included)
+                tr.insert(draw(st.integers(0, len(tr))), (draw(st.sampled_from((0, 0.0))), ids[draw(st.sampled_from(anywhere))]))
             if len(tr) < 5 and draw(st.integers(0, 5)) == 0:
                 # an exact duplicate: one edge split into two IDENTICAL (probability, successor) tuples
                 j = draw(st.integers(0, len(tr) - 1))
